@@ -153,7 +153,7 @@ def main():
         try:
             with open(os.path.join(wt, f), 'w', encoding='utf-8') as fh:
                 fh.write(new + '\n')
-            t = run(['/venv/bin/python', '-m', 'pytest', '-q', '-x', '-p', 'no:cacheprovider', '--timeout=120'], cwd=wt)
+            t = run(['/venv/bin/python', '-m', 'pytest', '-q', '-p', 'no:cacheprovider', '--timeout=120'], cwd=wt)
             last = t.stdout.strip().split('\n')[-1] if t.stdout.strip() else ''
             if '84 passed' not in last:
                 continue                       # killed by the baseline tests (or does not import): not interesting
